@@ -482,6 +482,34 @@ func (p *Profile) Draw(t *rapid.T, s *Session) cs.Op {
 			}
 		}
 		return cs.Op{Kind: "import", Coll: name, Path: rapid.SampledFrom(paths).Draw(t, "reimport-path"), Note: "fromexport"}
+	case "bigimport":
+		// a file of 1001-1500 documents with the offending one (duplicate or malformed _id) at the
+		// very end: the import must fail and create nothing
+		name := p.anyColl(t)
+		for _, n := range p.Colls {
+			if s.M.Colls[n] == nil {
+				name = n
+				break
+			}
+		}
+		n := rapid.SampledFrom([]int{1001, 1200, 1500}).Draw(t, "bigimport-n")
+		list := make([]interface{}, 0, n)
+		op := cs.Op{Kind: "import", Coll: name, Path: "bigimport-" + itoa(len(s.Ops)) + ".json"}
+		for i := 0; i < n; i++ {
+			d := cs.Doc{"_id": gen.Id(300000 + i), "k": float64(i)}
+			if i == n-1 {
+				if rapid.Bool().Draw(t, "bigimport-dup") {
+					d["_id"] = gen.Id(300000)
+				} else {
+					d["_id"] = "not-a-uuid"
+				}
+			}
+			op.Docs = append(op.Docs, d)
+			list = append(list, map[string]interface{}(d))
+		}
+		b, _ := json.Marshal(list)
+		op.Content = string(b)
+		return op
 	case "import":
 		name := p.anyColl(t)
 		if s.M.Colls[name] != nil && rapid.IntRange(0, 3).Draw(t, "import-existing") != 0 {
